@@ -38,6 +38,8 @@ func planDump(p *migrate.Plan) string {
 }
 
 func checkCase(c Case) (Outcome, error) {
+	model.SettleShortFKs(&c.A, &c.B)
+	model.SettleShortFKs(&c.B, &c.A)
 	var out Outcome
 	ctx := context.Background()
 	db, err := eng.New(ctx)
